@@ -18,7 +18,8 @@ func init() {
 		ID:    "C13",
 		Title: "A refused Set changes nothing; targets and paths resolve as documented",
 		Explanation: "Decided: (1) the only store mutator reachable from Server.Set (statically resolved calls) is transaction.Store.Create; (2) every failing check — getTargetInfo, doDelete, doUpdateOrReplace, getTargetVersionOverrides, getTransactionStrategy, newTransaction, the group evaluation — makes Set return an error without reaching Create; the 'no operations' and size-limit tests dominate Create; " +
-			"(3) no discarded error: in the functions reachable from the RPC handlers no call binds its error result to _ while using another of its results; (4) addressing: the target of an operation is the prefix target when non-empty, else the operation path's own target; the stored path is the operation's path, or prefix path followed by the operation's path; each operation is recorded in the maps of the target returned for it.",
+			"(3) no discarded error: in the functions reachable from the RPC handlers no call binds its error result to _ while using another of its results; (4) addressing: the target of an operation is the prefix target when non-empty, else the operation path's own target; the stored path is the operation's path, or prefix path followed by the operation's path; each operation is recorded in the maps of the target returned for it." +
+			" Also: Get resolves targets prefix first (C13.16); a delete is recorded on the parent only for an exactly matched key leaf (C13.17).",
 		Declined: []string{"correctness of FindPathFromModel / CheckKeyValue over all models", "what the plugin returns for JSON values"},
 		Run:      runC13,
 		Witness:  []WitnessTarget{{pkgNbGnmi, []string{"Server.Set", "getTargetInfo", "doUpdateOrReplace", "doDelete", "computeChange", "newTransaction"}}},
